@@ -547,9 +547,15 @@ func (db *Database) performFuzzySearch(query string, options SearchOptions) []Se
 	matches := fuzzy.Find(query, targets)
 
 	var results []SearchResult
+	currentPlatform := getCurrentPlatform()
 	for i, match := range matches {
 		if i >= options.Limit*2 { // Get more for better selection
 			break
+		}
+
+		// Same platform / pipeline filters as the indexed search path
+		if !passesFilters(&db.Commands[match.Index], currentPlatform, options) {
+			continue
 		}
 
 		// Apply fuzzy threshold
